@@ -522,7 +522,13 @@ def collect_variable_lookup(
                 len(closure_cells), len(freevars))
 
         for cell, freevar in zip(closure_cells, freevars):
-            closure_dict[freevar] = cell.cell_contents
+            try:
+                closure_dict[freevar] = cell.cell_contents
+            except ValueError:
+                # The cell is empty, *i.e.*, the variable of the enclosing scope has not been assigned yet.
+                # The condition evaluated nevertheless, so it did not read the variable
+                # (*e.g.*, due to a short-circuit).
+                pass
 
     variable_lookup.append(closure_dict)
 
